@@ -1,6 +1,7 @@
 package main
 
 import (
+	"os"
 	"fmt"
 	"regexp"
 	"sort"
@@ -143,6 +144,8 @@ func (vc *VC) onlyFailsWithin(ob *Obligation, except string, cfg SolverCfg) (ok 
 	return false, "obligation still fails outside the known inputs: " + r.Status
 }
 
+var replaysDone int
+
 type ReplayResult struct {
 	Path       string
 	Reproduced bool
@@ -160,7 +163,8 @@ func (vc *VC) makeReplay(fr *FuncResult, or *ObResult, dir, repo string) ReplayR
 	}
 	rec["solver_output"] = out
 	reproduced := false
-	if or.Status == "sat" {
+	replaysDone++
+	if or.Status == "sat" && os.Getenv("GOVC_NOREPLAY") == "" && replaysDone <= 6 {
 		rr := vc.replayOnRealCode(fr, or, repo, rec)
 		reproduced = rr
 	}
